@@ -498,6 +498,8 @@ struct StaticSym {
     uintptr_t addr;
     size_t size;
     std::string image;
+    std::string initial;      // bytes before any library operation ran in this process
+    bool restorable = false;  // plain static (constant initialiser, no guard variable): put back before every execution
 };
 static std::vector<StaticSym> g_statics;  // writable static storage defined by the instrumented (library) TU
 static std::string g_exe_dir;
@@ -567,7 +569,27 @@ static void load_statics()
         if (!s.size) s.size = 1;
         g_statics.push_back(s);
     }
-    for (auto &s : g_statics) s.image.assign((const char *)s.addr, s.size);
+    for (auto &s : g_statics) {
+        s.image.assign((const char *)s.addr, s.size);
+        s.initial = s.image;
+        // a static with a dynamic initialiser has a guard variable (_ZGV<name>); re-running its initialiser is not ours to do,
+        // so it and its guard keep whatever the warm-up left.  Everything else is plain data with a link-time value.
+        bool is_guard = s.name.compare(0, 4, "_ZGV") == 0, guarded = false;
+        for (auto &g : g_statics) guarded = guarded || g.name == "_ZGV" + s.name.substr(2);
+        s.restorable = !is_guard && !guarded;
+    }
+}
+
+// Every execution (main-thread reference, solo reference, interleaving) starts from the library's link-time static state.
+// Without this a cache or a high-water mark kept in a plain static is written once during the warm-up and only read
+// afterwards, and the concurrent executions - which are the ones under test - would never see the write.
+static void restore_statics()
+{
+    for (auto &s : g_statics)
+        if (s.restorable) {
+            memcpy((void *)s.addr, s.initial.data(), s.size);
+            s.image = s.initial;
+        }
 }
 
 static std::string demangled(const std::string &m)
@@ -615,6 +637,7 @@ static void run_solo(int op, int salt)
     // an operation may legitimately differ from later ones (one-time initialisation inside libstdc++, lazily built
     // tables), so up to 4 warm-up runs are allowed before the machinery gives up.
     for (int attempt = 0; attempt < 5; ++attempt) {
+        restore_statics();
         sx::Exec e;
         e.start(salt + 1, progs, nops);
         e.finish();
@@ -667,6 +690,7 @@ static uint64_t g_execs = 0, g_accesses = 0, g_shared_accesses = 0, g_points = 0
 // runs the schedule (then lets every thread finish in id order) and checks every oracle; returns false when it reported
 static bool run_and_check(Ctx &c, const Program &P, const std::vector<Step> &sch, const char *kind)
 {
+    restore_statics();
     sx::Exec e;
     e.start(P.n, P.progs, P.nops);
     for (auto &st : sch) {
@@ -768,6 +792,7 @@ static void main_thread_references()
     for (int op = 0; op < c20_num_ops(); ++op)
         for (int salt = 0; salt < sx::MAXT; ++salt)
             for (int rep = 0; rep < 2; ++rep) {  // twice: the second call is past any one-time initialisation
+                if (rep == 0) restore_statics();
                 c20_run_op(op, salt, sx::g_shared, buf.data(), buf.size());
                 g_main_result[op][salt] = buf.data();
             }
@@ -837,12 +862,12 @@ static void flush_counts()
 
 static void build(vf::Plan &plan, const vf::Opts &o)
 {
+    load_statics();  // before any library code runs: the images taken here are the link-time values
     sx::init_threads();
     g_sh = c20_make_shared();  // built by (instrumented) library code while no worker thread exists
     sx::g_shared = g_sh;
     main_thread_references();
     g_sh_image = shared_image();
-    load_statics();
     const int NOPS = c20_num_ops();
     {
         std::string names;
